@@ -424,3 +424,18 @@ Section TranslationRun.
       + intros w. rewrite (sbf_add I k Hk), (sbf_scal I k Hk), HU0, kc. ring.
   Qed.
 End TranslationRun.
+
+(* the hypotheses of rigid_translation_run are satisfiable: unit mass, zero stiffness (free body), exact minimiser U1 = Up *)
+Definition k0 (u v : unit -> R) : R := 0.
+Lemma translation_hypotheses_satisfiable :
+  sbf unit m1 /\ sbf unit k0 /\ (forall x, 0 <= m1 x x) /\ (forall x, m1 x x = 0 -> x = @fzero R NumR unit) /\ (forall x, 0 <= k0 x x) /\
+  (forall c w, k0 c w = 0) /\
+  (forall b, b <> 0 -> forall Up dt, dt <> 0 -> stationary_at unit m1 k0 b dt Up ((fun Up _ => Up) Up dt)).
+Proof.
+  assert (Hk0 : sbf unit k0) by (split; intros; unfold k0; ring).
+  split; [exact sbf_m1|]. split; [exact Hk0|]. split; [intros x; unfold m1; nra|]. split; [|split; [intros; unfold k0; lra|split; [reflexivity|]]].
+  - intros x Hx. apply field1_ext. unfold m1 in Hx. unfold fzero, nzero, nZ. cbn [nconst NumR]. unfold Q2R'. cbn [Qnum Qden inject_Z]. nra.
+  - intros b Hb Up dt Hdt. unfold stationary_at.
+    apply (proj2 (balance_iff_stationary unit m1 sbf_m1 (SEq unit k0) k0 (SEq_derive unit k0 Hk0) b dt Hb Hdt Up Up)).
+    intros w. unfold A_new, m1, k0, fscal, fsub. cbn [nsub nmul NumR]. ring.
+Qed.
